@@ -123,6 +123,12 @@ def r_update_admin(ctx, cfg):
                         if not (o[0] == "agg" and o[1].endswith("Result::Err")):
                             ok = False
             ctx.ob("C12.R1", key, "non-admin-path-returns-Err", ok, "the non-admin path can return something other than Err", fn=f, sample="Err only")
+        # "succeed only when sent by the current admin": no way to a success result around the guard (a shortcut such as
+        # `if data.admin == new_admin { return Ok(..) }` placed before it)
+        around = [site for site, val in q.success_return_sites(P, f) if _admin_guard(P, f, site[0], addr) is None]
+        ctx.ob("C12.R1", key, "success-only-by-current-admin", not around,
+               "update_admin can produce a success result at block(s) %s without passing `contract_data(addr).admin == Some(sender)`" % sorted(set(b for b, i in around)),
+               fn=f, sample="every non-Err result dominated by the admin guard")
         # R2: what is saved
         # `data.admin = x; save(data)` or `save(ContractData { admin: x, ..data })`: the loaded record with only `admin` replaced
         def is_loaded_cd(o):
@@ -232,6 +238,10 @@ def r_migrate(ctx, cfg):
             for fe in _failing_edge(P, f, cf, g):
                 bad += _writes_after(f, cf, fe)
             ctx.ob("C12.R1", key, "non-admin-migrate-writes-nothing", not bad, "the non-admin path reaches %s" % bad, fn=f, sample="no storage write")
+    around = [site for site, val in q.success_return_sites(P, f) if arm_of(site[0]) == "Migrate" and _admin_guard(P, f, site[0], addr) is None]
+    ctx.ob("C12.R1", key, "migrate-success-only-by-current-admin", not around,
+           "the Migrate arm can produce a success result at block(s) %s without passing `contract_data(addr).admin == Some(sender)`" % sorted(set(b for b, i in around)),
+           fn=f, sample="every non-Err result of the arm dominated by the admin guard")
     rec = peel(sa[3])
     chm = q.record_update(sa[3], lambda o: peel(o)[0] == "ok" and peel(peel(o)[1])[0] == "call" and peel(peel(o)[1])[1] == "wasm::Wasm::contract_data")
     ok = chm is not None and set(k for k in chm if not (isinstance(k, tuple) and k[0] == "&mut")) == {"code_id"} and is_param_field(chm["code_id"], "msg", "new_code_id")
